@@ -851,6 +851,10 @@ func runCaseTrace(cs *Case, d *driver) trace {
 		}
 		o.E = "E " + strings.Join(evs, ",")
 		o.W = "W " + hexOrDash(im.be.written)
+		lastCur := ""
+		if im.fe.haveCursor {
+			lastCur = fmt.Sprintf(" last-cursor=%d,%d", im.fe.lastCursor[0], im.fe.lastCursor[1])
+		}
 		// equivalent change notifications: a frontend repainting what is announced is in sync
 		// on both buffers or on neither
 		var fs []finding
@@ -864,6 +868,9 @@ func runCaseTrace(cs *Case, d *driver) trace {
 		if shadowBad {
 			o.V += " shadow-out-of-sync"
 		}
+		// the cursor position the frontend was last told (the buffers notify at different
+		// moments, but after the same input the last report must be the same)
+		o.V += lastCur
 		ls := o.lines()
 		tr.obs = append(tr.obs, strings.Join(ls[1:], "\n")) // without the consumed count
 		tr.at = append(tr.at, resizes*1000000+im.consumed())
